@@ -439,52 +439,52 @@ impl<'a> Searcher<'a> {
                         items.push((field_name, record));
                     }
 
-                    results.push(items);
+                    // the value of every ordering key for this group: that of the column it names or,
+                    // as a key need not be selected, its own
+                    let ordering_fields = self.query.ordering_fields.clone();
+                    let sort_keys = ordering_fields
+                        .iter()
+                        .map(|key| {
+                            let name = key.to_string().to_lowercase();
+                            match items.iter().find(|(field_name, _)| field_name == &name) {
+                                Some((_, record)) => record.clone(),
+                                None => format!(
+                                    "{}",
+                                    self.get_column_expr_value(
+                                        None,
+                                        &None,
+                                        &mut file_map,
+                                        Some(f.1),
+                                        key
+                                    )
+                                ),
+                            }
+                        })
+                        .collect::<Vec<String>>();
+
+                    results.push((items, sort_keys));
                 });
 
                 if !self.query.ordering_fields.is_empty() {
-                    let ordering_fields = self
-                        .query
-                        .ordering_fields
-                        .iter()
-                        .map(|f| f.to_string().to_lowercase())
-                        .collect::<Vec<String>>();
                     let directions = self.query.ordering_asc.clone();
-                    let sorting_indices = ordering_fields
-                        .iter()
-                        .map(|f| {
-                            self.query
-                                .fields
-                                .iter()
-                                .map(|f| f.to_string().to_lowercase())
-                                .position(|g| &g == f)
-                                .unwrap_or(0)
-                        })
-                        .collect::<Vec<usize>>();
 
                     results.sort_by(|a, b| {
-                        sorting_indices
-                            .iter()
+                        a.1.iter()
+                            .zip(b.1.iter())
                             .enumerate()
-                            .map(|(idx, i)| {
-                                if let Some(a) = a.get(*i) {
-                                    if let Ok(a) = a.1.parse::<i64>() {
-                                        if let Some(b) = b.get(*i) {
-                                            if let Ok(b) = b.1.parse::<i64>() {
-                                                return if directions[idx] { 
-                                                    a.cmp(&b) 
-                                                } else { 
-                                                    b.cmp(&a) 
-                                                };
-                                            }
-                                        }
-                                    }
+                            .map(|(idx, (a, b))| {
+                                if let (Ok(a), Ok(b)) = (a.parse::<i64>(), b.parse::<i64>()) {
+                                    return if directions[idx] {
+                                        a.cmp(&b)
+                                    } else {
+                                        b.cmp(&a)
+                                    };
                                 }
-                                if directions[idx] { 
-                                    a.get(*i).unwrap().1.cmp(&b.get(*i).unwrap().1) 
-                                } else { 
-                                    b.get(*i).unwrap().1.cmp(&a.get(*i).unwrap().1) 
-                                } 
+                                if directions[idx] {
+                                    a.cmp(b)
+                                } else {
+                                    b.cmp(a)
+                                }
                             })
                             .find(|r| *r != std::cmp::Ordering::Equal)
                             .unwrap_or(std::cmp::Ordering::Equal)
@@ -497,7 +497,7 @@ impl<'a> Searcher<'a> {
                     limit => limit as usize,
                 };
 
-                results.iter().take(row_limit).enumerate().for_each(|(idx, items)| {
+                results.iter().take(row_limit).enumerate().for_each(|(idx, (items, _))| {
                     let mut buf = WritableBuffer::new();
                     if idx > 0 {
                         let _ = self.results_writer.write_row_separator(&mut buf);
